@@ -634,6 +634,50 @@ pub fn drive_creep(s: &mut Session, _rng: &mut Rng) {
     }
 }
 
+/// a slow phase cut short from inside its first table cell: after 1 .. 6 ticks of a phase of several thousand
+/// ticks its time is set to one tick or less, so the very next tick ends it; the following phase must start at
+/// its exact level and follow ITS curve from the beginning (whatever was prepared for the first cell of the
+/// phase that was cut short)
+pub fn drive_cut_short(s: &mut Session, rng: &mut Rng) {
+    let names = ['a', 'd', 'r'];
+    for &fs in [100.0f32, 1000.0, 1000.0, 48000.0].iter() {
+        for w in 0..3usize {
+            for &sus in [0.3f32, 0.0, 1.0].iter() {
+                s.start(fs);
+                let slow = ((3000.0 + rng.below(3000) as f64) / fs as f64) as f32;
+                for k in 0..3usize {
+                    s.set_time(names[k], if k == w { slow } else { (50.0 / fs as f64) as f32 });
+                }
+                s.set_sustain(sus);
+                s.gate_on();
+                if w >= 1 {
+                    s.run_phase(4000);
+                }
+                if w == 2 {
+                    s.run_phase(4000);
+                    s.tick();
+                    s.gate_off();
+                }
+                for _ in 0..(1 + rng.below(6)) {
+                    s.tick();
+                }
+                let cut = *rng.pick(&[1.0f64, 0.5, 0.9, 0.001]);
+                s.set_time(names[w], (cut / fs as f64) as f32);
+                s.tick();
+                s.tick();
+                // the phase after it, tick by tick
+                s.run_phase(200);
+                s.tick();
+                if w == 0 {
+                    s.gate_off();
+                    s.run_phase(200);
+                    s.tick();
+                }
+            }
+        }
+    }
+}
+
 /// bursts of parameter writes while the envelope holds (sustaining or at rest): 250 .. 260 and 508 .. 516
 /// time writes between the end of one timed phase and the start of the next, with and without ticks in
 /// between, so that a wrapping 8-bit "parameters changed" stamp meets every offset; the phase that follows
@@ -825,6 +869,7 @@ pub fn record(driver: &str, seed: u64, thorough: bool, out: &mut Out) -> Stats {
             drive_sustain_bounds(&mut s, &mut rng);
             drive_creep(&mut s, &mut rng);
             drive_write_bursts(&mut s, &mut rng);
+            drive_cut_short(&mut s, &mut rng);
         }
         "cells" => drive_cells(&mut s, &mut rng, thorough),
         "extreme" => drive_extreme(&mut s, &mut rng, if thorough { 400 } else { 60 }),
